@@ -248,6 +248,83 @@ Theorem C12_local8181_pinned_acts_only_when_handle_matches : forall rp cl q rp' 
     exists pb, aget h (r_pubs rp) = Some pb /\ pb_id pb = cl_id cl.
 Proof. exact local8181_pinned_acts_only_when_handle_matches. Qed.
 
+(** Child updates ([ca_child_update]) in every shape - ID certificate only, resources only, both in one request, and
+    a request whose resource part is refused: after an update that carries an ID certificate for an existing child
+    the registered key IS the new key ... *)
+Theorem C12_update_with_id_replaces_key : forall c u st k ch,
+    aget c (p_children st) = Some ch -> u_id u = Some k ->
+    exists ch', aget c (p_children (fst (child_update c u st))) = Some ch' /\ ch_id ch' = k /\ ch_susp ch' = ch_susp ch.
+Proof. exact update_with_id_replaces_key. Qed.
+
+(** ... an update without one leaves every registered key alone; no update touches another child, the parent's
+    identity or any certificate; a successful one that carries resources sets exactly those ... *)
+Theorem C12_update_without_id_keeps_keys : forall c u st c',
+    u_id u = None ->
+    option_map ch_id (aget c' (p_children (fst (child_update c u st)))) = option_map ch_id (aget c' (p_children st)).
+Proof. exact update_without_id_keeps_keys. Qed.
+
+Theorem C12_update_frame : forall c u st,
+    p_id (fst (child_update c u st)) = p_id st /\ p_handle (fst (child_update c u st)) = p_handle st /\
+    p_classes (fst (child_update c u st)) = p_classes st /\
+    forall c', c' <> c -> aget c' (p_children (fst (child_update c u st))) = aget c' (p_children st).
+Proof. exact update_frame. Qed.
+
+Theorem C12_update_sets_entitlement : forall c u st st' r,
+    child_update c u st = (st', true) -> u_res u = Some r ->
+    exists ch', aget c (p_children st') = Some ch' /\ ch_ent ch' = r.
+Proof. exact update_sets_entitlement. Qed.
+
+(** ... so after an update of ANY shape that carries a new ID certificate a request signed with the replaced key is
+    refused without change, and a request signed with the new key is validated (a list request is answered). *)
+Theorem C12_replaced_key_refused_after_update : forall validate6, cms_sound validate6 -> forall st c ch u knew ua m,
+    aget c (p_children st) = Some ch -> u_id u = Some knew -> knew <> ch_id ch ->
+    sender m = c -> signed_by m = ch_id ch ->
+    rfc6492 validate6 (fst (child_update c u st)) ua m = (fst (child_update c u st), Refused).
+Proof. exact replaced_key_refused_after_update. Qed.
+
+Theorem C12_new_key_served_after_update : forall validate6, cms_sound validate6 -> forall st c ch u knew ua m,
+    aget c (p_children st) = Some ch -> u_id u = Some knew ->
+    sender m = c -> signed_by m = knew -> intact m = true ->
+    snd (rfc6492 validate6 (fst (child_update c u st)) ua m) <> Refused /\
+    fst (rfc6492 validate6 (fst (child_update c u st)) ua m) = fst (process (fst (child_update c u st)) ua c (payload m)).
+Proof. exact new_key_served_after_update. Qed.
+
+Theorem C12_new_key_list_answered_after_update : forall validate6, cms_sound validate6 -> forall st c ch u knew ua m,
+    aget c (p_children st) = Some ch -> u_id u = Some knew -> ch_susp ch = false ->
+    sender m = c -> signed_by m = knew -> intact m = true -> payload m = RList ->
+    exists rep st', rfc6492 validate6 (fst (child_update c u st)) ua m = (st', Served c rep).
+Proof. exact new_key_list_answered_after_update. Qed.
+
+(** The jail of a publisher is the directory named like its handle, for every handle other than exactly "ta"
+    ([ta_name]) - whatever the handle starts with; a publisher that is added gets that jail and the given key. *)
+Theorem C12_jail_is_own_directory : forall h, h <> ta_name -> jail_of h = [h].
+Proof. exact jail_is_own_directory. Qed.
+
+Theorem C12_create_publisher_jail : forall h k rp rp',
+    create_publisher h k rp = (rp', true) ->
+    exists pb, aget h (r_pubs rp') = Some pb /\ pb_id pb = k /\ pb_jail pb = jail_of h /\ pb_objs pb = [] /\
+               forall h', h' <> h -> aget h' (r_pubs rp') = aget h' (r_pubs rp).
+Proof. exact create_publisher_jail. Qed.
+
+(** Along every history of publishers added and removed (an identity change is remove + add) and of messages, every
+    stored jail is the one the handle determines ... *)
+Theorem C12_jails_wf_along_history : forall validate ins rp, jails_wf rp -> jails_wf (rrun validate rp ins).
+Proof. exact jails_wf_along_history. Qed.
+
+(** ... hence an accepted delta names only URIs inside the jail the sender's HANDLE determines: for every sender other
+    than exactly "ta", inside the directory named like the sender. *)
+Theorem C12_publish_within_own_directory : forall validate rp m rp' h r d,
+    jails_wf rp ->
+    rfc8181 validate rp m = (rp', Served h r) -> payload m = QDelta d -> payload r = PSuccess ->
+    forall e, In e d -> prefix_b (jail_of (sender m)) (elem_uri e) = true.
+Proof. exact publish_within_own_directory. Qed.
+
+Theorem C12_publish_only_under_own_handle_along_history : forall validate ins k v m rp' h r d,
+    sender m <> ta_name ->
+    rfc8181 validate (rrun validate (mkRepo k [] v) ins) m = (rp', Served h r) -> payload m = QDelta d -> payload r = PSuccess ->
+    forall e, In e d -> exists rest, elem_uri e = sender m :: rest.
+Proof. exact publish_only_under_own_handle_along_history. Qed.
+
 (** The validator used to evaluate observed cases satisfies the modelling assumption. *)
 Theorem C12_ideal_validate_sound : forall P, cms_sound (@ideal_validate P).
 Proof. exact @ideal_validate_sound. Qed.
@@ -290,4 +367,16 @@ Print Assumptions C12_local8181_equals_remote.
 Print Assumptions C12_local8181_effects_confined.
 Print Assumptions C12_local8181_pinned_refuted.
 Print Assumptions C12_local8181_pinned_acts_only_when_handle_matches.
+Print Assumptions C12_update_with_id_replaces_key.
+Print Assumptions C12_update_without_id_keeps_keys.
+Print Assumptions C12_update_frame.
+Print Assumptions C12_update_sets_entitlement.
+Print Assumptions C12_replaced_key_refused_after_update.
+Print Assumptions C12_new_key_served_after_update.
+Print Assumptions C12_new_key_list_answered_after_update.
+Print Assumptions C12_jail_is_own_directory.
+Print Assumptions C12_create_publisher_jail.
+Print Assumptions C12_jails_wf_along_history.
+Print Assumptions C12_publish_within_own_directory.
+Print Assumptions C12_publish_only_under_own_handle_along_history.
 Print Assumptions C12_ideal_validate_sound.
